@@ -120,7 +120,7 @@ func main() {
 	prog := env.Program()
 
 	// ---- configurations that keep the default serializers
-	configs := [][]string{nil, {"naming_style=golint"}, {"value_type_in_container"}, {"enum_as_int_32"}, {"keep_unknown_fields"}, {"with_reflection", "with_field_mask"}, {"use_type_alias=false"}, {"reorder_fields"}}
+	configs := [][]string{nil, {"naming_style=golint"}, {"value_type_in_container"}, {"enum_as_int_32"}, {"keep_unknown_fields"}, {"with_reflection", "with_field_mask"}, {"reorder_fields"}}
 	if thorough {
 		for _, o := range []string{"naming_style=apache", "gen_setter", "nil_safe", "json_stringer", "validate_set=false", "typed_enum_string", "compatible_names", "reserve_comments", "gen_deep_equal", "with_reflection",
 			"no_fmt", "skip_empty", "frugal_tag", "gen_db_tag", "json_enum_as_text", "snake_style_json_tag", "omitempty_for_optional=false", "scan_value_for_enum=false", "unescape_double_quote=false", "ignore_initialisms", "gen_type_meta", "enum_marshal", "enum_unmarshal", "lower_camel_style_json_tag", "gen_json_tag=false", "get_enum_annotation", "field_mask_halfway,with_field_mask,with_reflection"} {
